@@ -114,6 +114,72 @@ def snap_chs(sn, idx=None):
              float(sn['a'][i]), float(sn['n'][i])) for i in rng_]
 
 
+# ------------------------------------------------------------------ every public view of the object
+def _views(si):
+    with np.errstate(all='ignore'):
+        car = si.carriers
+        return {'car_sig': np.array([c.signal for c in car], dtype=float), 'car_ase': np.array([c.ase for c in car], dtype=float),
+                'car_nli': np.array([c.nli for c in car], dtype=float), 'car_f': np.array([c.frequency for c in car], dtype=float),
+                'car_br': np.array([c.baud_rate for c in car], dtype=float), 'car_sw': np.array([c.slot_width for c in car], dtype=float),
+                'car_no': np.array([c.channel_number for c in car], dtype=float),
+                'signal': np.array(si.signal, dtype=float), 'ase': np.array(si.ase, dtype=float),
+                'nli': np.array(si.nli, dtype=float), 'pch': np.array(si.pch, dtype=float),
+                'ptot': np.array([si.ptot], dtype=float), 'ptot_dbm': np.array([si.ptot_dbm], dtype=float),
+                'pch_dbm': np.array(si.pch_dbm, dtype=float), 'signal_dbm': np.array(si.signal_dbm, dtype=float),
+                'ase_dbm': np.array(si.ase_dbm, dtype=float), 'nli_dbm': np.array(si.nli_dbm, dtype=float),
+                'gsnr': np.array(si.gsnr, dtype=float), 'snr_lin': np.array(si.snr_lin, dtype=float),
+                'snr_nli': np.array(si.snr_nli, dtype=float), 'gsnr_db': np.array(si.gsnr_db, dtype=float),
+                'n': np.array([si.number_of_channels], dtype=float)}
+
+
+def view_failures(si, where):
+    """every public view of the object (the carriers list with its power tuples, signal / ase / nli / pch / ptot and
+    their dBm forms, gsnr / snr_lin / snr_nli) read NOW, twice: reading must be idempotent and every view must agree
+    with the bookkeeping state (total power and the three shares) the object has at this moment"""
+    if si is None:
+        return []
+    out = []
+    sn = snap(si)
+    if not snap_finite(sn):
+        return out
+    v1, v2 = _views(si), _views(si)
+    sn2 = snap(si)
+    if not snap_equal(sn, sn2):
+        out.append(('view_not_pure', f'{where}: reading the public properties changed the state: {snap_change(sn, sn2)}'))
+    for k in v1:
+        if v1[k].shape != v2[k].shape or not np.array_equal(v1[k], v2[k], equal_nan=True):
+            out.append(('view_not_idempotent', f'{where}: two successive reads of {k} differ'))
+    n = len(sn['p'])
+    p, s, a, nl = sn['p'], sn['s'], sn['a'], sn['n']
+    with np.errstate(all='ignore'):
+        db = lambda x: 10 * np.log10(x) + 30      # noqa: E731   (W -> dBm, independent of gnpy.core.utils)
+        expect = {'car_sig': s * p, 'car_ase': a * p, 'car_nli': nl * p, 'car_f': sn['f'], 'car_br': sn['br'],
+                  'car_sw': sn['sw'], 'car_no': np.arange(1, n + 1, dtype=float),
+                  'signal': s * p, 'ase': a * p, 'nli': nl * p, 'pch': p, 'ptot': np.array([np.sum(p)]),
+                  'ptot_dbm': np.array([db(np.sum(p))]), 'pch_dbm': db(p), 'signal_dbm': db(s * p), 'ase_dbm': db(a * p),
+                  'nli_dbm': db(nl * p), 'gsnr': s / (a + nl), 'snr_lin': s / a, 'snr_nli': s / nl,
+                  'gsnr_db': 10 * np.log10(s / (a + nl)), 'n': np.array([float(n)])}
+        for k, e in expect.items():
+            g = v1[k]
+            if g.shape != e.shape:
+                out.append(('view_mismatch', f'{where}: {k} has {g.shape[0]} entries for {e.shape[0]} channels'))
+                continue
+            both_inf = np.isinf(g) & np.isinf(e) & (np.sign(g) == np.sign(e))
+            both_nan = np.isnan(g) & np.isnan(e)
+            tol = 1e-9 if k.endswith('_dbm') or k.endswith('_db') else 0.0
+            ok = both_inf | both_nan | (np.abs(g - e) <= np.maximum(tol, 1e-12 * np.maximum(np.abs(g), np.abs(e))))
+            if not ok.all():
+                i = int(np.argmin(ok))
+                out.append(('view_mismatch', f'{where}: {k}[{i}] reads {g[i]!r} but the state of the object (total power and '
+                                             f'shares) gives {e[i]!r}'))
+        tot = v1['car_sig'] + v1['car_ase'] + v1['car_nli']
+        ok = np.abs(tot - p) <= 1e-12 * np.abs(p)
+        if tot.shape == p.shape and not ok.all():
+            i = int(np.argmin(ok))
+            out.append(('view_power_split', f'{where}: carriers[{i}]: signal+ase+nli = {tot[i]!r} but pch = {p[i]!r}'))
+    return out
+
+
 # ------------------------------------------------------------------ C01 oracle on one state
 def state_failures(sn, where):
     """the statement of C01 on one observed state: shares in [0,1], sum 1, power splits exactly"""
@@ -502,6 +568,7 @@ def drive_hist(case):
     live.set(si, init, 'the initial spectrum')
     sibs = []
     steps = []
+    init_views = view_failures(si, 'initial spectrum')
     for k, c in enumerate(case['ops']):
         before = snap(si)
         rec = {'c': c, 'before': before}
@@ -528,6 +595,7 @@ def drive_hist(case):
         rec['out'] = 'ok'
         rec['after'] = snap(si2)
         rec['si'] = si2
+        rec['views'] = (init_views if not steps else []) + view_failures(si2, f'after op #{k + 1} {c["op"]}')
         # aliasing: nothing but the object the operation was applied to / returned may have changed
         if c['op'] != 'switch':
             live.set(si2, rec['after'], f'the result of op #{k + 1} {c["op"]}')
@@ -659,6 +727,7 @@ def hist_oracle(case, init, steps):
         scope = scope and in_scope_step(st)
         for d in st.get('alias', []):
             fails.append(('aliasing', f'{where} changed an object it was not applied to: {d}'))
+        fails += st.get('views', [])
         if st['out'] != 'ok' or not scope or c['op'] == 'switch':
             continue
         a, b = st['after'], st['before']
@@ -831,8 +900,21 @@ def fiber_el(rng, uid, raman=False, short=False, lo=20, hi=130):
         params['length'] = round(rng.uniform(60, 110), 3)
         params['con_in'], params['con_out'] = 0.5, 0.5
         scale = rng.uniform(0.3, 1.0)
-        el['operational'] = {'temperature': 283,
-                             'raman_pumps': [dict(p, power=p['power'] * scale) for p in PUMPS[:rng.randint(1, 2)]]}
+        scheme = rng.random()
+        if scheme < 0.3:
+            pumps = [dict(p, power=p['power'] * scale) for p in PUMPS[:rng.randint(1, 2)]]
+        else:
+            # wide-band pumping schemes: pumps above, below and inside the propagated comb (or only below it: the pump
+            # of a longer-wavelength band), co- and counter-propagating
+            below = [190.5e12, 189.0e12, 186.0e12, 191.0e12]
+            anywhere = [205e12, 201e12, 198.2e12, 196.4e12] + below
+            pumps = []
+            for _ in range(rng.randint(1, 3)):
+                fp = rng.choice(below) if scheme < 0.55 else \
+                    rng.choice(anywhere + [191.4e12 + rng.randint(0, 70) * 50e9 + 23.7e9])
+                pumps.append({'power': round(rng.uniform(0.05, 0.25), 4) * scale, 'frequency': fp,
+                              'propagation_direction': rng.choice(['counterprop', 'counterprop', 'coprop'])})
+        el['operational'] = {'temperature': rng.choice([283, 283, 298]), 'raman_pumps': pumps}
     return el
 
 
@@ -958,6 +1040,9 @@ def gen_path_case(rng, flavour=None, thorough=False):
         else:
             srs = False
     tiny = method != 'gn_model_analytic' or srs
+    # GGN methods: which channels are computed (the others are interpolated): all of them, a number of equally spaced
+    # ones, or an explicit short list; when only some are computed the comb may be larger for the same run time
+    ggn_mode = rng.choice(['all', 'list', 'list', 'number', 'number']) if method != 'gn_model_analytic' else None
     # launched spectrum
     spectrum = None
     if tiny or rng.random() < 0.6 or flavour == 'multiband':
@@ -966,9 +1051,14 @@ def gen_path_case(rng, flavour=None, thorough=False):
         bands = [(191.4e12, 195.0e12)] + ([(186.6e12, 190.0e12)] if eq == 'multiband' else [])
         for (lo, hi) in bands:
             f = lo + rng.randint(0, 20) * 50e9
-            for k in range((rng.randint(2, 3) if thorough else 2) if ggn else (1 if tiny else rng.randint(1, 3))):
+            sparse = ggn and ggn_mode != 'all'
+            for k in range((3 if sparse else (rng.randint(2, 3) if thorough else 2)) if ggn
+                           else (1 if tiny else rng.randint(1, 3))):
                 sw, br = rng.choice(SLOTS[:7])
-                nch = rng.randint(1, (4 if thorough else 3) if tiny else (6 if not thorough else 14))
+                if sparse:
+                    nch = rng.randint(2, 5)         # groups of several carriers
+                else:
+                    nch = rng.randint(1, (4 if thorough else 3) if tiny else (6 if not thorough else 14))
                 f_min = f + sw / 2
                 f_max = f_min + (nch - 1) * sw
                 if f_max + sw / 2 > hi:
@@ -979,7 +1069,10 @@ def gen_path_case(rng, flavour=None, thorough=False):
                 if ggn or rng.random() < 0.25:
                     # strongly non-uniform powers: neighbouring groups of channels 6 dB apart (pre-emphasis), both in
                     # the ROADM equalisation offsets and at the transmitter
-                    step = rng.choice([3.0, 3.0, 2.0, 4.5]) * (1 if k % 2 == 0 else -1) * rng.choice([1, 1, -1])
+                    step = rng.choice([3.0, 2.0, 4.5, 5.0, 6.0, 8.0] if ggn else [3.0, 3.0, 2.0, 4.5]) \
+                        * (1 if k % 2 == 0 else -1) * rng.choice([1, 1, -1])
+                    if ggn and rng.random() < 0.5:
+                        step = max(step, 0.0)       # one group well above a nominal neighbourhood
                     parts[-1]['delta_pdb'] = step
                     parts[-1]['tx_power_dbm'] = step
                 f = f_max + sw / 2 + rng.choice([0, 0, 50e9, 300e9])
@@ -991,13 +1084,12 @@ def gen_path_case(rng, flavour=None, thorough=False):
     computed, computed_nb = None, None
     if method != 'gn_model_analytic' and spectrum:
         ntot = sum(int(round((q['f_max'] - q['f_min']) / q['slot_width'])) + 1 for q in spectrum)
-        r = rng.random()
-        if r < 0.45 and ntot >= 4:
+        if ggn_mode == 'list' and ntot >= 4 and rng.random() < 0.75:
             computed = sorted(rng.sample(range(2, ntot), rng.choice([2, 2, 3]) if ntot >= 5 else 2))
-        elif r < 0.6 and ntot >= 3:
+        elif ggn_mode == 'list' and ntot >= 3:
             computed = sorted(rng.sample(range(1, ntot + 1), rng.randint(2, min(4, ntot))))
-        elif r < 0.8 and ntot >= 2:
-            computed_nb = rng.randint(2, min(5, ntot))
+        elif ggn_mode == 'number' and ntot >= 2:
+            computed_nb = rng.randint(2, min(8, ntot))
     sim = {'raman_params': {'flag': srs, 'result_spatial_resolution': 10e3,
                             'solver_spatial_resolution': rng.choice([50, 100, 200] if thorough else [200, 500])},
            'nli_params': {'method': method, 'dispersion_tolerance': 1, 'phase_shift_tolerance': 0.1,
@@ -1038,6 +1130,7 @@ class Tracer:
                              'n': len(self_._pch), 'f': np.array(self_.frequency, dtype=float)}
                     tr.log.append(entry)
                     entry['b'] = snap(self_)
+                    entry['views'] = view_failures(self_, f'before update {name}')
                 tr.pdepth += 1
                 try:
                     return orig(self_, arg)
@@ -1045,6 +1138,7 @@ class Tracer:
                     tr.pdepth -= 1
                     if top:
                         entry['a'] = snap(self_)
+                        entry['views'] += view_failures(self_, f'after update {name}')
             tr.saved.append((SI, name, orig))
             setattr(SI, name, w)
         for nm in self.PRIMS:
@@ -1089,6 +1183,7 @@ class Tracer:
                     before = snap(spectral_info)
                     tr.keep.append(spectral_info)
                     tr.live.set(spectral_info, before, f'the spectrum that entered {type(self_).__name__} {self_.uid}')
+                    views = view_failures(spectral_info, 'at the input')
                 tr.depth += 1
                 try:
                     res = orig(self_, spectral_info, *a, **kw)
@@ -1105,7 +1200,8 @@ class Tracer:
                         obj_rec[1] = snap(obj_rec[0])
                     tr.calls.append({'el': self_, 'kind': type(self_).__name__, 'uid': self_.uid, 'in': id(spectral_info),
                                      'out': id(res), 'before': before, 'after': after, 'log': tr.log,
-                                     'si_out': res, 'alias': alias})
+                                     'si_out': res, 'alias': alias,
+                                     'views': views + view_failures(res, 'at the output')})
                     tr.log = []
                 return res
             tr.saved.append((cls, '__call__', orig))
@@ -1481,7 +1577,9 @@ def path_oracle_c01(res):
     for c in res['calls']:
         where = f'after {c["kind"]} {c["uid"]}'
         fails += alias_failures(c)
+        fails += [(key, f'{c["kind"]} {c["uid"]} {d}') for key, d in c.get('views', [])]
         for k, e in enumerate(c['log']):
+            fails += [(key, f'{c["kind"]} {c["uid"]} update #{k + 1} {d}') for key, d in e.get('views', [])]
             if e['op'] not in PRIM_KIND or 'a' not in e:
                 continue
             w = f'{c["kind"]} {c["uid"]} update #{k + 1} {e["op"]}'
